@@ -398,8 +398,10 @@ def render_constslice(F, name, ens):
     return "#[verifier::external_body]\nexec const %s: %s\n    ensures %s\n{ %s }\n" % (name, ty2, ens, val)
 
 
-def generate(unit, repo, contracts_dir, profile="debug", vacuity=False, units_by_name=None):
-    """Returns (text, fn_names, line_map) ; line_map: list of (first_line, last_line, label)."""
+def generate(unit, repo, contracts_dir, profile="debug", vacuity=False, units_by_name=None, force_stub=()):
+    """Returns (text, fn_names, line_map) ; line_map: list of (first_line, last_line, label).
+    force_stub: names of contracted functions to emit as external_body stubs carrying their own contract (used when a
+    function's current text is outside the verifier's subset: it becomes UNDECIDED, the rest of the unit is still checked)."""
     chunks = [HEADER]
     labels = []
     fn_names = []
@@ -427,6 +429,11 @@ def generate(unit, repo, contracts_dir, profile="debug", vacuity=False, units_by
                     raise SpliceError("stub %s: no contract in unit %s" % (fc.name, fc.stub_from))
                 use = FnContract(fc.name)
                 use.sig, use.ret, use.attrs = cand[0].sig, cand[0].ret, [a for a in cand[0].attrs]
+                use.is_stub = True
+                use.source = fc.source
+            elif fc.name in force_stub and not fc.is_stub:
+                use = FnContract(fc.name)
+                use.sig, use.ret, use.attrs = fc.sig, fc.ret, [a for a in fc.attrs]
                 use.is_stub = True
                 use.source = fc.source
             a = cur_line()
